@@ -222,11 +222,12 @@ NULLP = P(("null",), I(0, 0))
 
 
 class Obligation:
-    __slots__ = ("inst", "kind", "region", "off", "width", "size", "ok", "desc", "note")
+    __slots__ = ("inst", "kind", "region", "off", "width", "size", "ok", "desc", "note", "ptr_op", "len_op", "val_op")
 
     def __init__(self, inst, kind, region, off, width, size, ok, desc, note=None):
         self.inst, self.kind, self.region, self.off, self.width, self.size, self.ok, self.desc, self.note = \
             inst, kind, region, off, width, size, ok, desc, note
+        self.ptr_op = self.len_op = self.val_op = None
 
     def identity(self):
         i = self.inst
@@ -253,6 +254,9 @@ class UnitState:
         self.ptr_field_pending = {}
         self.ctx_cache = {}
         self.ctx_analyses = {}
+        self.default_contracts = {}
+        self.candidates = {}
+        self.use_sym = False
 
     def _upd(self, tab, key, v, thresholds):
         """stores are accumulated in a pending table; the invariants that loads read stay frozen
@@ -345,6 +349,9 @@ class Analysis:
         self._geps = {}
         self._ctrl = {}
         self._lock = {}
+        self.k2 = {}
+        self.inv_obligations = {}
+        self.heap_size_op = {}
 
     # ---------------------------------------------------------------- helpers
     def _thresholds(self):
@@ -468,7 +475,7 @@ class Analysis:
                         self._oblige(inst, "field-of", P(cur_region, off), ssz)
                 # entering a sub-object: bounds are now those of the field
                 if cur_region[0] in ("unknown", "null"):
-                    cur_region = ("sub", cur_region, "%s.%s" % (sname, fname), fsz, (st["struct"], st["field"]))
+                    cur_region = ("sub", (cur_region, (0, 0)), "%s.%s" % (sname, fname), fsz, (st["struct"], st["field"]))
                 else:
                     cur_region = ("sub", (cur_region, _key(off)), "%s.%s" % (sname, fname), fsz, (st["struct"], st["field"]))
                 off = I(0, 0)
@@ -528,6 +535,8 @@ class Analysis:
                 return tr if inv is None else self._with_zero_init(inv, tr)
             if cn in self.unit.given:
                 return self.unit.given[cn][0].meet(tr)
+            if cn in self.unit.candidates:
+                return self.unit.candidates[cn].meet(tr)
             inv = self.unit.field.get((sty, fidx))
             if inv is not None:
                 return self._with_zero_init(inv, tr)
@@ -650,13 +659,42 @@ class Analysis:
             fty = self.mod.types[sty]["fields"][fidx]["ty"]
             tab = self.unit.elem if fty.startswith("[") else self.unit.field
             self.unit._upd(tab, (sty, fidx), v, self.thresholds)
+            cn = (Module.struct_cname(sty), self.mod.field_name(sty, fidx))
+            if cn in self.unit.candidates and not fty.startswith("["):
+                cand = self.unit.candidates[cn]
+                okc = (not v.bot()) and cand.lo <= v.lo and v.hi <= cand.hi
+                ob = Obligation(inst, "invariant", region, v, None, None, okc or v.bot(), "field %s.%s in %s" % (cn[0], cn[1], cand))
+                ob.val_op = inst.ops[0]
+                self.inv_obligations[inst.id] = ob
         elif region[0] == "alloca":
             a = self.fn.vals[region[1]]
             if not a.d["alloc_ty"].startswith("[") and not a.d["alloc_ty"].startswith("%"):
                 self.unit._upd(self.unit.alloca_elem, (self.fn.name, region[1], "scalar"), v, self.thresholds)
 
-    def _oblige(self, inst, kind, ptr, width, length=None, length_op=None):
+    def _oblige(self, inst, kind, ptr, width, length=None, length_op=None, ptr_op=None):
         """record the bounds obligation of an access of `width` bytes (or a length interval)"""
+        self._oblige2(inst, kind, ptr, width, length, length_op)
+        o = self.obligations.get((inst.id, kind))
+        if o is not None:
+            o.len_op = length_op
+            o.ptr_op = ptr_op if ptr_op is not None else self._ptr_operand(inst, kind)
+
+    def _ptr_operand(self, inst, kind):
+        if inst.op == "load":
+            return inst.ops[0]
+        if inst.op == "store":
+            return inst.ops[1]
+        if inst.op == "call":
+            if kind in ("memcpy-src", "memcmp-1"):
+                return inst.ops[1]
+            if kind in ("stream-read", "decoder-read", "read-into"):
+                return inst.ops[1]
+            return inst.ops[0]
+        if inst.op == "getelementptr":
+            return inst.ops[0]
+        return None
+
+    def _oblige2(self, inst, kind, ptr, width, length=None, length_op=None):
         region = ptr.region
         size = self.region_size(region)
         if isinstance(size, tuple) and size[0] == "param":
@@ -666,8 +704,8 @@ class Analysis:
             while lo is not None and lo[0] == "v" and self.fn.defn(lo) is not None and not self.fn.defn(lo).is_param and self.fn.defn(lo).op in ("zext", "sext", "trunc"):
                 lo = self.fn.defn(lo).ops[0]
             ok = ptr.off.lo == 0 and ptr.off.hi == 0 and lo == ("v", pk.id)
-            self.obligations[(inst.id, kind)] = Obligation(inst, kind, region, ptr.off, length if length is not None else width, "value of parameter %s" % pk.name, ok,
-                                                           self.region_desc(region))
+            ob = Obligation(inst, kind, region, ptr.off, length if length is not None else width, ("param", size[1]), ok, self.region_desc(region))
+            self.obligations[(inst.id, kind)] = ob
             return
         if length is not None:
             if not isinstance(length, I) or length.bot():
@@ -677,7 +715,7 @@ class Analysis:
                 need_hi = ptr.off.lo    # zero-length access touches nothing
         else:
             need_hi = ptr.off.hi + width
-        if region[0] in ("unknown", "heap") and size is None:
+        if size is None and region[0] not in ("null", "fn"):
             key = (inst.id, kind)
             self.obligations[key] = Obligation(inst, kind, region, ptr.off, width, None, None, self.region_desc(region))
             return
@@ -1091,6 +1129,9 @@ class Analysis:
             else:
                 w = self.width(p.ty)
                 pv = self.unit.param_values.get((fn.name, p.index))
+                if pv is None and any(isinstance(sz, tuple) and sz[0] == "param" and sz[1] == p.index for sz in self.contracts.values()) and w:
+                    # this parameter is the byte length of a caller-supplied object: 0 .. PTRDIFF_MAX
+                    pv = I(0, srange(w)[1])
                 self.val[p.id] = pv if pv is not None else (top(w) if w else None)
         if max_iter != 1:
             self.env_out = {}
@@ -1144,6 +1185,29 @@ class Analysis:
 
     _widening_on = True
     _narrowing = False
+
+    def reeval(self, o, env, depth=0):
+        """value of operand o under env, recomputing pure definitions whose operands are refined in env"""
+        if o[0] != "v" or o[1] in env:
+            return self.lookup(o, env)
+        d = self.fn.defn(o)
+        if d is None or d.is_param or depth > 3:
+            return self.lookup(o, env)
+        if d.op in ("zext", "sext", "trunc"):
+            a = self.reeval(d.ops[0], env, depth + 1)
+            dd = self.fn.defn(d.ops[0])
+            wf = self.width(dd.ty) if dd is not None else None
+            if isinstance(a, I) and wf:
+                r = self._cast(d.op, a, wf, self.width(d.ty))
+                base = self.val.get(d.id)
+                return r.meet(base) if isinstance(base, I) and not r.meet(base).bot() else r
+        if d.op in ("add", "sub", "mul", "and", "or", "lshr", "shl", "urem", "udiv") and self.width(d.ty):
+            a, b = self.reeval(d.ops[0], env, depth + 1), self.reeval(d.ops[1], env, depth + 1)
+            if isinstance(a, I) and isinstance(b, I):
+                r = self._binop(d.op, a, b, self.width(d.ty))
+                base = self.val.get(d.id)
+                return r.meet(base) if isinstance(base, I) and not r.meet(base).bot() else r
+        return self.lookup(o, env)
 
     def _widen_val(self, old, new, hard=False):
         if isinstance(old, I) and isinstance(new, I):
@@ -1379,6 +1443,70 @@ class Analysis:
         self.obligations = {}
         self.run()
 
+    def symbolic_discharge(self):
+        """retry interval-unproven obligations with symbolic (linear) bounds"""
+        from .sym import Sym
+        from .lin import Lin
+        pending = [o for o in list(self.obligations.values()) + list(self.inv_obligations.values()) if o.ok is False]
+        if not pending:
+            return
+        sy = Sym(self)
+        sy.k2 = dict(self.k2)
+        for o in pending:
+            inst = o.inst
+            if o.kind == "invariant":
+                cn = o.desc
+                lo = sy.lower(o.val_op, inst)
+                hi = sy.upper(o.val_op, inst)
+                cand = None
+                for k, c in self.unit.candidates.items():
+                    if o.desc.startswith("field %s.%s " % k):
+                        cand = c
+                if cand is not None and lo >= cand.lo and hi <= cand.hi:
+                    o.ok = True
+                    o.note = "symbolic bounds [%s,%s]" % (lo, hi)
+                else:
+                    o.note = "symbolic bounds [%s,%s]" % (lo, hi)
+                continue
+            size = o.size
+            sizeL = None
+            if isinstance(size, int):
+                sizeL = Lin(size)
+            if isinstance(size, tuple) and size[0] == "param":
+                sizeL = Lin(0, {self.fn.params[size[1]].id: 1})
+            if o.region[0] == "heap" and o.region[1] in self.heap_size_op:
+                cn, ops = self.heap_size_op[o.region[1]]
+                aop = ops[0] if cn == "malloc" else (ops[1] if cn == "realloc" else None)
+                if aop is not None:
+                    hinst = self.fn.vals[o.region[1]]
+                    sizeL = sy.lin(aop, hinst)
+            if sizeL is None or o.ptr_op is None:
+                continue
+            offL = sy.ptr_offset_lin(o.ptr_op, inst)
+            if offL is None:
+                continue
+            if o.len_op is not None:
+                lenL = sy.lin(o.len_op, inst)
+                if lenL is None:
+                    continue
+                len_lo = sy.lower_lin(lenL, inst)
+            elif isinstance(o.width, int):
+                lenL = Lin(o.width)
+                len_lo = o.width
+            elif isinstance(o.width, I) and o.width.is_const():
+                lenL = Lin(o.width.lo)
+                len_lo = o.width.lo
+            else:
+                continue
+            endL = offL.add(lenL).add(sizeL, -1)
+            hi = sy.upper_lin(endL, inst)
+            lo = sy.lower_lin(offL, inst)
+            if hi <= 0 and lo >= 0 and len_lo >= 0:
+                o.ok = True
+                o.note = "symbolic: offset + length - extent <= %s, offset >= %s" % (hi, lo)
+            else:
+                o.note = "symbolic attempt: offset + length - extent <= %s, offset >= %s, length >= %s" % (hi, lo, len_lo)
+
     def narrow(self, rounds=3):
         """descending phase: branch refinements are recomputed from scratch with all SSA values known (the
         ascending phase can leave stale 'unrefined' snapshots on back edges); loop-header phis only shrink:
@@ -1387,6 +1515,7 @@ class Analysis:
         self._narrowing = True
         self.env_out = {}
         self.obligations = {}
+        self.inv_obligations = {}
         for _ in range(rounds):
             self.visits = {}
             self.run(max_iter=1)
@@ -1407,7 +1536,7 @@ class Analysis:
                 e = self.edge_env(pb, b)
                 if e is None:
                     continue
-                x = self.lookup(v, e)
+                x = self.reeval(v, e)
                 if x is None:
                     if v[0] == "undef":
                         continue
@@ -1467,11 +1596,11 @@ class Analysis:
             et = self._refine_cond(i.ops[0], True, env)
             ef = self._refine_cond(i.ops[0], False, env)
             if et is None and ef is not None:
-                return self.lookup(i.ops[2], ef)
+                return self.reeval(i.ops[2], ef)
             if ef is None and et is not None:
-                return self.lookup(i.ops[1], et)
+                return self.reeval(i.ops[1], et)
             if et is not None and ef is not None:
-                a, b2 = self.lookup(i.ops[1], et), self.lookup(i.ops[2], ef)
+                a, b2 = self.reeval(i.ops[1], et), self.reeval(i.ops[2], ef)
             if a is None or b2 is None:
                 return top(self.width(i.ty)) if self.width(i.ty) else UNKNOWN_PTR
             return _join_val(a, b2, self)
@@ -1549,7 +1678,7 @@ class Analysis:
             if hit is None:
                 # pointers into the caller's locals cannot be named in the callee: pass them as opaque
                 pvals = {}
-                contracts = {}
+                contracts = dict(self.unit.default_contracts.get(cf.name, {}))
                 for k, a in enumerate(args):
                     if isinstance(a, I):
                         pvals[k] = a
@@ -1565,6 +1694,8 @@ class Analysis:
                 self.unit.ctx_cache[key] = (BOT, {})      # recursion guard
                 sub.run()
                 sub.narrow(3)
+                if self.unit.use_sym:
+                    sub.symbolic_discharge()
                 hit = (sub.ret, sub.obligations)
                 self.unit.ctx_cache[key] = hit
                 self.unit.ctx_analyses.setdefault(cf.name, []).append(sub)
@@ -1603,6 +1734,7 @@ class Analysis:
             # K2: LHADecoderCallback(buf, buf_len, user_data) writes at most buf_len bytes, returns at most buf_len
             ln = args[1] if isinstance(args[1], I) else None
             self._oblige(i, "callback-write", args[0], None, length=ln, length_op=i.ops[1])
+            self.k2[i.id] = i.ops[1]
             if ln is not None and not ln.bot():
                 u = unsigned(ln, 64)
                 return I(0, u.hi)
@@ -1610,7 +1742,8 @@ class Analysis:
         if fname == "read" and len(args) >= 2:
             if len(args) == 3 and isinstance(args[1], P):
                 ln = args[2] if isinstance(args[2], I) else None
-                self._oblige(i, "stream-read", args[1], None, length=ln)
+                self._oblige(i, "stream-read", args[1], None, length=ln, length_op=i.ops[2])
+                self.k2[i.id] = i.ops[2]
                 if ln is not None and not ln.bot() and w:
                     return I(-1, unsigned(ln, 64).hi).meet(top(w))
             if len(args) == 2 and isinstance(args[1], P):
@@ -1707,13 +1840,15 @@ def _m_alloc(an, i, args, w):
         size = a.lo            # at least this many bytes
     if cn == "calloc" and isinstance(args[0], I) and isinstance(args[1], I) and args[0].lo >= 0 and args[1].lo >= 0:
         size = args[0].lo * args[1].lo
+    an.heap_size_op[i.id] = (cn, [i.ops[k] for k in range(len(i.ops))])
     return P(("heap", i.id, size), I(0, 0))
 
 
 def _m_fread(an, i, args, w):
     if isinstance(args[0], P) and isinstance(args[1], I) and isinstance(args[2], I):
         n = args[1].hi * args[2].hi if args[1].hi != INF and args[2].hi != INF else INF
-        an._oblige(i, "fread", args[0], None, length=I(0, n))
+        an._oblige(i, "fread", args[0], None, length=I(0, n), length_op=i.ops[2] if (isinstance(args[1], I) and args[1].is_const() and args[1].lo == 1) else None)
+        an.k2[i.id] = i.ops[2]
         return I(0, unsigned(args[2], 64).hi)
     return top(w)
 
@@ -1722,7 +1857,27 @@ def _m_strcmp(an, i, args, w):
     return top(w)
 
 
-EXTERNAL_MODELS = {"strlen": _m_strlen, "malloc": _m_alloc, "calloc": _m_alloc, "realloc": _m_alloc, "fread": _m_fread,
+def _m_decoder_read(an, i, args, w):
+    """lha_decoder_read / lha_reader_read (obj, buf, buf_len): writes and returns at most buf_len (C14.R2 / C09)"""
+    if isinstance(args[1], P):
+        ln = args[2] if isinstance(args[2], I) else None
+        an._oblige(i, "read-into", args[1], None, length=ln, length_op=i.ops[2], ptr_op=i.ops[1])
+        an.k2[i.id] = i.ops[2]
+        if ln is not None and not ln.bot():
+            return I(0, unsigned(ln, 64).hi)
+    return I(0, srange(64)[1])
+
+
+def _m_stream_read(an, i, args, w):
+    """lha_input_stream_read(stream, buf, buf_len): fills exactly buf_len bytes on success; returns 0/1"""
+    if isinstance(args[1], P):
+        ln = args[2] if isinstance(args[2], I) else None
+        an._oblige(i, "read-into", args[1], None, length=ln, length_op=i.ops[2], ptr_op=i.ops[1])
+    return I(0, 1)
+
+
+EXTERNAL_MODELS = {"lha_decoder_read": _m_decoder_read, "lha_reader_read": _m_decoder_read, "lha_input_stream_read": _m_stream_read,
+                   "lha_basic_reader_read_compressed": _m_decoder_read,"strlen": _m_strlen, "malloc": _m_alloc, "calloc": _m_alloc, "realloc": _m_alloc, "fread": _m_fread,
                    "strcmp": _m_strcmp, "strncmp": _m_strcmp}
 
 
@@ -1752,6 +1907,8 @@ class Unit(UnitState):
                 a = Analysis(f, self, contracts.get(f.name, {}))
                 a.run()
                 a.narrow(3)
+                if self.use_sym:
+                    a.symbolic_discharge()
                 self.analyses[f.name] = a
                 if f in others:
                     old = self.summaries.get(f.name)
